@@ -587,7 +587,7 @@ func TestVerifC13(t *testing.T) {
 		}
 		return []string{"plain", "chrome115"}
 	}
-	allFates := []sim.Fate{sim.Drop, sim.Dup, sim.Delay, sim.DelayLong, sim.Flip0, sim.Flip7, sim.FlipMid, sim.FlipLast, sim.Trunc1, sim.Trunc20, sim.TruncLast}
+	allFates := []sim.Fate{sim.Drop, sim.Dup, sim.Delay, sim.DelayLong, sim.Flip0, sim.Flip7, sim.FlipMid, sim.FlipLast, sim.Trunc1, sim.Trunc20, sim.TruncLast, sim.FlipSCID}
 	few := []sim.Fate{sim.Drop, sim.Dup, sim.Delay}
 	parts := []explore.Part{
 		mkPart("faults", func(e explore.Env) ([]c13Config, string) {
@@ -615,7 +615,7 @@ func TestVerifC13(t *testing.T) {
 					}
 				}
 			}
-			return cfgs, fmt.Sprintf("%d scenarios (no Retry, Retry, version negotiation, long certificate chain, resumption, 0-RTT accepted, 0-RTT rejected) x client kinds x every fault map with 1 fault (11 fates) among the first 6 handshake datagrams of each direction (thorough: also 2 faults from {drop,dup,delay} among the first 5)", len(c13Scenarios))
+			return cfgs, fmt.Sprintf("%d scenarios (no Retry, Retry, version negotiation, long certificate chain, resumption, 0-RTT accepted, 0-RTT rejected) x client kinds x every fault map with 1 fault (12 fates, one of them a bit flip in the source connection ID) among the first 6 handshake datagrams of each direction (thorough: also 2 faults from {drop,dup,delay} among the first 5)", len(c13Scenarios))
 		}),
 		mkPart("injections", func(e explore.Env) ([]c13Config, string) {
 			var cfgs []c13Config
